@@ -205,7 +205,12 @@ impl PhonOracle {
     }
 
     pub fn avro(&self, s: &str) -> String {
-        self.ph.convert(s)
+        if s.is_ascii() {
+            self.ph.convert(s)
+        } else {
+            // okkhor slices by byte and panics on non-ASCII input; nothing typeable is non-ASCII
+            guard(|| self.ph.convert(s)).unwrap_or_else(|_| s.to_string())
+        }
     }
 
     /// Compiled Avro pattern of a typed word (None when it does not compile, e.g. too large).
